@@ -378,7 +378,8 @@ func hCatalog(dir string) {
 	out := NewOut(dir)
 	defer out.Close()
 	n := envInt("VERIF_N", 400)
-	names := []string{"a", "b", "a", "b", "sys", "ab", "a/lease", "sys/idseq", "", strings.Repeat("n", 200), strings.Repeat("n", 201), "x\x00y", "a[b", "é"}
+	names := []string{"a", "b", "a", "b", "sys", "ab", "a/lease", "sys/idseq", "", strings.Repeat("n", 200), strings.Repeat("n", 201), "x\x00y", "a[b", "é",
+		strings.Repeat("é", 100), strings.Repeat("é", 101), strings.Repeat("é", 150)}
 	for sc := 0; sc < n; sc++ {
 		r := newRand(int64(14000 + sc))
 		out.Line("reset", "ok")
